@@ -133,9 +133,9 @@ proofs/KrpcProofs.vos proofs/KrpcProofs.vok proofs/KrpcProofs.required_vos: proo
 proofs/RoundTrip.vo proofs/RoundTrip.glob proofs/RoundTrip.v.beautified proofs/RoundTrip.required_vo: proofs/RoundTrip.v model/Bytes.vo model/Id.vo model/Server.vo model/Bencode.vo model/Krpc.vo proofs/BencodeProofs.vo proofs/KrpcProofs.vo
 proofs/RoundTrip.vio: proofs/RoundTrip.v model/Bytes.vio model/Id.vio model/Server.vio model/Bencode.vio model/Krpc.vio proofs/BencodeProofs.vio proofs/KrpcProofs.vio
 proofs/RoundTrip.vos proofs/RoundTrip.vok proofs/RoundTrip.required_vos: proofs/RoundTrip.v model/Bytes.vos model/Id.vos model/Server.vos model/Bencode.vos model/Krpc.vos proofs/BencodeProofs.vos proofs/KrpcProofs.vos
-proofs/TokenForge.vo proofs/TokenForge.glob proofs/TokenForge.v.beautified proofs/TokenForge.required_vo: proofs/TokenForge.v gen/Params.vo model/Bytes.vo model/Crc32c.vo model/Node.vo model/Tokens.vo proofs/IdProofs.vo proofs/TokenProofs.vo proofs/KrpcProofs.vo
-proofs/TokenForge.vio: proofs/TokenForge.v gen/Params.vio model/Bytes.vio model/Crc32c.vio model/Node.vio model/Tokens.vio proofs/IdProofs.vio proofs/TokenProofs.vio proofs/KrpcProofs.vio
-proofs/TokenForge.vos proofs/TokenForge.vok proofs/TokenForge.required_vos: proofs/TokenForge.v gen/Params.vos model/Bytes.vos model/Crc32c.vos model/Node.vos model/Tokens.vos proofs/IdProofs.vos proofs/TokenProofs.vos proofs/KrpcProofs.vos
+proofs/TokenForge.vo proofs/TokenForge.glob proofs/TokenForge.v.beautified proofs/TokenForge.required_vo: proofs/TokenForge.v gen/Params.vo model/Bytes.vo model/Crc32c.vo model/Node.vo model/Tokens.vo model/Check03.vo proofs/IdProofs.vo proofs/TokenProofs.vo proofs/KrpcProofs.vo
+proofs/TokenForge.vio: proofs/TokenForge.v gen/Params.vio model/Bytes.vio model/Crc32c.vio model/Node.vio model/Tokens.vio model/Check03.vio proofs/IdProofs.vio proofs/TokenProofs.vio proofs/KrpcProofs.vio
+proofs/TokenForge.vos proofs/TokenForge.vok proofs/TokenForge.required_vos: proofs/TokenForge.v gen/Params.vos model/Bytes.vos model/Crc32c.vos model/Node.vos model/Tokens.vos model/Check03.vos proofs/IdProofs.vos proofs/TokenProofs.vos proofs/KrpcProofs.vos
 properties/C10.vo properties/C10.glob properties/C10.v.beautified properties/C10.required_vo: properties/C10.v model/Bytes.vo model/Id.vo model/Server.vo model/Bencode.vo model/Krpc.vo model/Check10.vo proofs/BencodeProofs.vo proofs/KrpcProofs.vo proofs/RoundTrip.vo
 properties/C10.vio: properties/C10.v model/Bytes.vio model/Id.vio model/Server.vio model/Bencode.vio model/Krpc.vio model/Check10.vio proofs/BencodeProofs.vio proofs/KrpcProofs.vio proofs/RoundTrip.vio
 properties/C10.vos properties/C10.vok properties/C10.required_vos: properties/C10.v model/Bytes.vos model/Id.vos model/Server.vos model/Bencode.vos model/Krpc.vos model/Check10.vos proofs/BencodeProofs.vos proofs/KrpcProofs.vos proofs/RoundTrip.vos
@@ -247,9 +247,12 @@ proofs/CallsProofs.vos proofs/CallsProofs.vok proofs/CallsProofs.required_vos: p
 proofs/NetProofs.vo proofs/NetProofs.glob proofs/NetProofs.v.beautified proofs/NetProofs.required_vo: proofs/NetProofs.v model/NetModel.vo
 proofs/NetProofs.vio: proofs/NetProofs.v model/NetModel.vio
 proofs/NetProofs.vos proofs/NetProofs.vok proofs/NetProofs.required_vos: proofs/NetProofs.v model/NetModel.vos
-properties/C13.vo properties/C13.glob properties/C13.v.beautified properties/C13.required_vo: properties/C13.v model/NetModel.vo proofs/NetProofs.vo
-properties/C13.vio: properties/C13.v model/NetModel.vio proofs/NetProofs.vio
-properties/C13.vos properties/C13.vok properties/C13.required_vos: properties/C13.v model/NetModel.vos proofs/NetProofs.vos
-properties/C01.vo properties/C01.glob properties/C01.v.beautified properties/C01.required_vo: properties/C01.v model/NetModel.vo model/Check13.vo proofs/NetProofs.vo
-properties/C01.vio: properties/C01.v model/NetModel.vio model/Check13.vio proofs/NetProofs.vio
-properties/C01.vos properties/C01.vok properties/C01.required_vos: properties/C01.v model/NetModel.vos model/Check13.vos proofs/NetProofs.vos
+proofs/NetPaths.vo proofs/NetPaths.glob proofs/NetPaths.v.beautified proofs/NetPaths.required_vo: proofs/NetPaths.v model/NetModel.vo proofs/NetProofs.vo
+proofs/NetPaths.vio: proofs/NetPaths.v model/NetModel.vio proofs/NetProofs.vio
+proofs/NetPaths.vos proofs/NetPaths.vok proofs/NetPaths.required_vos: proofs/NetPaths.v model/NetModel.vos proofs/NetProofs.vos
+properties/C13.vo properties/C13.glob properties/C13.v.beautified properties/C13.required_vo: properties/C13.v model/NetModel.vo proofs/NetProofs.vo proofs/NetPaths.vo
+properties/C13.vio: properties/C13.v model/NetModel.vio proofs/NetProofs.vio proofs/NetPaths.vio
+properties/C13.vos properties/C13.vok properties/C13.required_vos: properties/C13.v model/NetModel.vos proofs/NetProofs.vos proofs/NetPaths.vos
+properties/C01.vo properties/C01.glob properties/C01.v.beautified properties/C01.required_vo: properties/C01.v model/NetModel.vo model/Check13.vo proofs/NetProofs.vo proofs/NetPaths.vo
+properties/C01.vio: properties/C01.v model/NetModel.vio model/Check13.vio proofs/NetProofs.vio proofs/NetPaths.vio
+properties/C01.vos properties/C01.vok properties/C01.required_vos: properties/C01.v model/NetModel.vos model/Check13.vos proofs/NetProofs.vos proofs/NetPaths.vos
